@@ -67,6 +67,11 @@ def _next_sort_index() -> int:
     return _global_event_counter.__next__()
 
 
+def _first_unused_global_sort_index() -> int:
+    """Return a sort index above every index the global counter has handed out."""
+    return _global_event_counter.__next__()
+
+
 def reset_event_counter() -> None:
     """Reset the global event counter to zero.
 
